@@ -1,6 +1,7 @@
 package main
 
 import (
+	"bufio"
 	"encoding/json"
 	"fmt"
 	"github.com/alecthomas/participle/v2"
@@ -182,4 +183,96 @@ func stripPos(t *ebnf.EBNF) any {
 		prods = append(prods, eProd{Name: pr.Production, Expr: convExpr(pr.Expression)})
 	}
 	return prods
+}
+
+func init() { commands["ebnf-trees"] = ebnfTrees }
+
+func buildExpr(e eExpr) *ebnf.Expression {
+	out := &ebnf.Expression{}
+	for _, alt := range e.Alts {
+		sq := &ebnf.Sequence{}
+		for _, t := range alt {
+			tm := &ebnf.Term{Negation: t.Neg, Repetition: t.Rep}
+			switch t.Kind {
+			case "name":
+				tm.Name = t.Text
+			case "lit":
+				// (set through reflection so that the harness does not depend on the exact type of the field)
+				f := reflect.ValueOf(tm).Elem().FieldByName("Literal")
+				f.Set(reflect.ValueOf(t.Text).Convert(f.Type()))
+			case "tok":
+				tm.Token = t.Text
+			case "grp":
+				g := &ebnf.SubExpression{Expr: buildExpr(t.Expr)}
+				if t.Look != "" {
+					g.Lookahead = ebnf.LookaheadAssertion(rune(t.Look[0]))
+				}
+				tm.Group = g
+			}
+			sq.Terms = append(sq.Terms, tm)
+		}
+		out.Alternatives = append(out.Alternatives, sq)
+	}
+	return out
+}
+
+// ebnf-trees <file>: lines of JSON {"tree": expression, "text": the specification's print of it}.  The tree is built as real
+// ebnf package values under a production P; its String() is parsed back and printed again.  Per line:
+// "OK|DRIFT|BAD\tindex\tdetail" (BAD: the text does not parse, parses to a different tree, or the second print differs;
+// DRIFT: only the text differs from the specification's).
+func ebnfTrees(args []string) error {
+	f, err := os.Open(args[0])
+	if err != nil {
+		return err
+	}
+	defer f.Close()
+	sc := bufio.NewScanner(f)
+	sc.Buffer(make([]byte, 1<<20), 1<<24)
+	n, bad, drift := 0, 0, 0
+	for sc.Scan() {
+		var c struct {
+			Tree eExpr  `json:"tree"`
+			Text string `json:"text"`
+		}
+		if err := json.Unmarshal(sc.Bytes(), &c); err != nil {
+			return fmt.Errorf("line %d: %v", n+1, err)
+		}
+		n++
+		res := func() (res string) {
+			defer func() {
+				if r := recover(); r != nil {
+					res = fmt.Sprintf("BAD\tpanic: %v", r)
+				}
+			}()
+			tree := &ebnf.EBNF{Productions: []*ebnf.Production{{Production: "P", Expression: buildExpr(c.Tree)}}}
+			text := tree.String()
+			t2, err := ebnf.ParseString(text)
+			if err != nil {
+				return fmt.Sprintf("BAD\tString() = %q does not parse: %v", text, err)
+			}
+			if !reflect.DeepEqual(stripPos(tree), stripPos(t2)) {
+				return fmt.Sprintf("BAD\tString() = %q parses to a different tree, which prints %q", text, t2.String())
+			}
+			if again := t2.String(); again != text {
+				return fmt.Sprintf("BAD\tString() = %q, after parsing it prints %q", text, again)
+			}
+			if want := "P = " + c.Text + " ."; text != want {
+				return fmt.Sprintf("DRIFT\tString() = %q, specification %q", text, want)
+			}
+			return "OK"
+		}()
+		if strings.HasPrefix(res, "BAD") {
+			bad++
+			if bad <= 20 {
+				fmt.Printf("%s\t%d\n", res, n)
+			}
+		} else if strings.HasPrefix(res, "DRIFT") {
+			drift++
+			if drift <= 3 {
+				fmt.Printf("%s\t%d\n", res, n)
+			}
+		}
+	}
+	fmt.Printf("DONE\t%d\t%d\t%d\n", n, bad, drift)
+	return nil
 }
